@@ -530,8 +530,8 @@ pub fn run_worker<P: Property>(args: WorkerArgs) {
     }
 
     // 3. generated cases
-    // thorough tier: the per-property case count times VERIF_THOROUGH_SCALE (default 4)
-    let scale: u64 = if args.tier == Tier::Thorough { std::env::var("VERIF_THOROUGH_SCALE").ok().and_then(|s| s.parse().ok()).unwrap_or(4) } else { 1 };
+    // thorough tier: the per-property case count times VERIF_THOROUGH_SCALE (default 1)
+    let scale: u64 = if args.tier == Tier::Thorough { std::env::var("VERIF_THOROUGH_SCALE").ok().and_then(|s| s.parse().ok()).unwrap_or(1) } else { 1 };
     let total = args.cases_override.unwrap_or_else(|| P::cases(args.tier).saturating_mul(scale.max(1)));
     let mine = total / args.workers as u64
         + if (args.worker as u64) < total % args.workers as u64 { 1 } else { 0 };
